@@ -236,24 +236,37 @@ func runC35Text(c *eng.Ctx) {
 			"a quoted name with escapes is returned raw here and decoded in Labels: metadata and samples of the family do not match up")
 	}
 	// ---- R13 seconds (float) to milliseconds ----
-	for _, fn := range []string{"OpenMetricsParser.parseSeriesEndOfLine", "OpenMetricsParser.parseComment", "OpenMetricsParser.StartTimestamp"} {
-		if p.TryFunc(T+fn) == nil {
-			continue
-		}
-		f := c.Fn(T + fn)
+	// no raw truncating conversion int64(x * 1000) anywhere in the OpenMetrics parser; the conversions go through
+	// secondsToMilliseconds, which rounds (to microseconds) before it cuts
+	nConv, nRaw := 0, 0
+	for _, f := range c.MethodsOf(T + "OpenMetricsParser") {
+		f := f
 		ast.Inspect(f.Body, func(x ast.Node) bool {
 			call, ok := x.(*ast.CallExpr)
-			if !ok || nodeText(call.Fun) != "int64" || len(call.Args) != 1 {
+			if !ok || len(call.Args) != 1 {
+				return true
+			}
+			if nodeText(call.Fun) == "secondsToMilliseconds" {
+				nConv++
+				return true
+			}
+			if nodeText(call.Fun) != "int64" {
 				return true
 			}
 			be, ok := ast.Unparen(call.Args[0]).(*ast.BinaryExpr)
 			if !ok || be.Op != token.MUL || !strings.HasPrefix(nodeText(be.Y), "1000") {
-				// int64(math.Round(x * 1000)) and the like
 				return true
 			}
+			nRaw++
 			c.Check("R13", f.Where(), "the conversion "+nodeText(call)+" of seconds to milliseconds rounds to the nearest millisecond", false, p.Pos(call.Pos()),
 				"int64() truncates: 1.001 s is 1000.9999999999999 after the multiplication and becomes 1000 ms, although the encoder writes milliseconds exactly as sec.mmm")
 			return true
 		})
 	}
+	helperOK := false
+	if p.TryFunc(T+"secondsToMilliseconds") != nil {
+		h := c.Fn(T + "secondsToMilliseconds")
+		helperOK = strings.Contains(nodeText(h.Body), "math.Round(")
+	}
+	c.Check("R13", "model/textparse:OpenMetricsParser", "sample, exemplar and _created timestamps (≥ 3 conversions) go through a rounding conversion, none is truncated raw", nRaw == 0 && nConv >= 3 && helperOK, "", fmt.Sprintf("%d through secondsToMilliseconds, %d raw, helper rounds: %v", nConv, nRaw, helperOK))
 }
